@@ -85,7 +85,12 @@ def _min_len_cases(env, v, maxbytes):
 
 def run_der_decode(env, sh):
     asn1 = _asn1()
-    data = env.bytes('data', sh['n'])
+    if 'body' in sh:
+        # symbolic identifier/length octets in front of a concrete body: reaches the long-form
+        # boundaries (127/128, 255/256) that all-symbolic short inputs cannot
+        data = env.P.concat(env.bytes('hdr', sh['n']), bytes(sh['body']))
+    else:
+        data = env.bytes('data', sh['n'])
     obj = getattr(asn1, sh['cls'])()
     try:
         obj.decode(data, strict=sh['strict'])
@@ -395,6 +400,14 @@ def shapes(tier):
         for n in range(0, nmax + 1):
             for strict in (False, True):
                 jobs.append(('der_decode', dict(cls=cls, n=n, strict=strict)))
+    for cls in (CLASSES if th else ('DerObject', 'DerOctetString', 'DerSequence', 'DerBitString')):
+        for body in ((0, 1, 125, 126, 127, 128, 129, 253, 254, 255, 256, 257, 258) if th else (126, 127, 128, 255, 256)):
+            for n in (2, 3, 4):
+                if n == 4 and cls in ('DerSequence', 'DerSetOf'):
+                    continue        # the 4th symbolic octet becomes a member header: 256-way member parsing
+                jobs.append(('der_decode', dict(cls=cls, n=n, body=body, strict=True)))
+                if th:
+                    jobs.append(('der_decode', dict(cls=cls, n=n, body=body, strict=False)))
     for bits in ((1, 7, 8, 9, 15, 16, 17, 24, 31, 32, 33, 40) if th else (8, 9, 16, 17, 33)):
         jobs.append(('der_int_rt', dict(bits=bits)))
     for bl in (([8], [9, 17], [8, 16, 33], [17, 1, 9]) if th else ([9, 17], [8, 16, 9])):
